@@ -47,6 +47,23 @@ def menu(rng, degenerate=None):
     return specs
 
 
+def csc_with_explicit_zeros(X, explicit):
+    """CSC copy of X; when `explicit`, every all-zero column keeps two STORED entries whose value is 0.0 (what zeroing a
+    column of a CSC matrix in place, or masking without eliminate_zeros(), leaves behind): same matrix, legitimate input"""
+    X = np.asarray(X, dtype=float)
+    zc = [j for j in range(X.shape[1]) if not np.any(X[:, j])] if explicit else []
+    if not zc:
+        return sparse.csc_matrix(X)
+    tmp = X.copy()
+    for j in zc:
+        tmp[0, j] = 1.0
+        tmp[-1, j] = 1.0
+    Xs = sparse.csc_matrix(tmp)
+    for j in zc:
+        Xs.data[Xs.indptr[j]:Xs.indptr[j + 1]] = 0.0
+    return Xs
+
+
 def build(spec, sparse_X=False):
     import random
     import skglm.datafits as sd, skglm.penalties as sp, skglm.solvers as ss
@@ -104,7 +121,7 @@ def build(spec, sparse_X=False):
     else:
         knobs.update(max_iter=300)
     solver = getattr(ss, sname)(**knobs)
-    Xin = sparse.csc_matrix(X) if sparse_X else X
+    Xin = csc_with_explicit_zeros(X, spec.get("seed", 0) % 2 == 0) if sparse_X else X
     return solver, Xin, target, df, pen, DP, PP, fi
 
 
